@@ -18,7 +18,7 @@ SRC = '''
 import math
 from xdeps.madxutils import MadxEnv, MadxEval
 import xdeps
-VARS = {"a": 1.5, "b": -2.0, "c.d": 0.5, "k1": 3.0, "z": 0.0, "n": 3, "p": 10}
+VARS = {"a": 1.5, "b": -2.0, "c.d": 0.5, "k1": 3.0, "z": 0.0, "n": 3, "p": 10, "t": 0.1, "u": 1e-300, "res": 0.0}
 ELS = {"q1": {"k1": 0.25, "l": 2.0}, "m.b": {"angle": -0.125, "l": 0.0}}
 def mkenv_fresh():
     env = MadxEnv()
@@ -50,9 +50,9 @@ def same(x, y):
     try:
         if x != x and y != y:
             return True
-        if isinstance(x, int) or isinstance(y, int):
-            return x == y               # exact (Python compares int with float exactly)
-        return abs(x - y) <= 1e-12 * max(1.0, abs(x), abs(y))
+        # exact: the deferred form performs the same IEEE operations in the same order as the immediate one and as Python on the
+        # fully parenthesised mirror (a re-associated product differs in the last bit, or overflows)
+        return x == y
     except TypeError:
         return x == y
 def three(env, s, mirror=None, ns=None):
@@ -232,10 +232,13 @@ def main():
     rac.section("integers+zero-factors", "integer-valued variables under large powers (exact integer vs floating result, overflow), and factors "
                 "that are literally zero in front of a sub-expression that raises or becomes NaN once a variable is set to 0 through the "
                 "manager: deferred == immediate (NaN where a division by zero raises), initially and after each change",
-                "22 strings x 4 changes")
+                "38 strings x 6 changes; each string also ASSIGNED to a variable through the manager, whose stored value must follow")
     crafted = ["n^40", "p^400", "n^40.0", "(n*p)^20", "n**64", "2^62*n", "n^2", "p^-2", "n^0.5", "(n+p)^30/n^30",
                "0*(a/z)", "(a/z)*0", "0*(a/b)", "0.0*(k1/b)+a", "0*sqrt(b)", "sqrt(b)*0", "0*(p^400)", "a+0*(1/z)", "0*q1->k1/z", "-0*(a/z)",
-               "(a/z)*0.0", "0*(a/(b+2))"]
+               "(a/z)*0.0", "0*(a/(b+2))",
+               # products / sums with two literals in a row (re-association changes the last bit or overflows); calls as LEFT operands
+               "t*3*3", "u*1e200*1e200", "t*0.1*0.1", "3*t*3", "t/3/3", "t+0.1+0.2", "t-0.3-0.1", "t*3*3*3", "q1->k1*0.1*3",
+               "atan2(a,b)/q1->l", "sin(a)*b", "sqrt(k1)+z", "atan2(a,b)+atan2(b,a)", "sin(a)^2+cos(b)^2", "abs(b)*k1+a", "exp(z)/k1-1"]
     for s in crafted:
         env = mkenv()
         hp = "^" in s or "**" in s
@@ -245,11 +248,23 @@ def main():
             ex = env.madexpr(s)
         except Exception:      # noqa
             continue
+        # the same expression as the DEFINITION of a variable: the stored value is kept up to date by the manager (dependencies)
+        stored_ok = True
+        try:
+            env._vref["res"] = env.madexpr(s)
+        except Exception:      # noqa  (a definition that cannot be evaluated now: only the pull form is checked)
+            stored_ok = False
+        scr += "try:\n    env._vref['res'] = env.madexpr(s); stored_ok = True\nexcept Exception:\n    stored_ok = False\n" \
+               "def chk_stored(label):\n    if stored_ok:\n        v = three(env, s)\n        st_ = num(env._variables['res'])\n" \
+               "        assert agree([st_, v[1]], hp), (label, 'stored', st_, 'immediate', v[1])\nchk_stored('initially')\n"
         bad = None
         for label, ch in [("initially", None)] + [(f"after {k} = {v}", (k, v)) for k, v in changes + [("n", 7), ("z", 0.0)]]:
             if ch is not None:
-                env._vref[ch[0]] = ch[1]
-                scr += f"env._vref[{ch[0]!r}] = {ch[1]!r}; chk({label!r})\n"
+                try:
+                    env._vref[ch[0]] = ch[1]
+                except Exception:      # noqa  (the definition of `res` raises on the new values: the pull form is still compared)
+                    stored_ok = False
+                scr += f"try:\n    env._vref[{ch[0]!r}] = {ch[1]!r}\nexcept Exception:\n    stored_ok = False\nchk({label!r}); chk_stored({label!r})\n"
             try:
                 d = num(val(ex))
             except Exception as e2:     # noqa
@@ -258,6 +273,11 @@ def main():
             if not agree(vals, hp) or not agree([d, vals[1]], hp):
                 bad = (label, [d] + vals)
                 break
+            if stored_ok:
+                st_ = num(env._variables["res"])
+                if not agree([st_, vals[1]], hp):
+                    bad = (label + " (value STORED for a variable defined by the expression)", [st_] + vals)
+                    break
         rac.case(("crafted", s), sample=s)
         if bad:
             rac.fail("crafted " + s, f"C19 {s!r} {bad[0]}: expression built earlier / deferred / immediate give {bad[1]}", scr, "MadxEval")
